@@ -18,6 +18,7 @@ import (
 	"sort"
 	"strings"
 	"sync"
+	"time"
 
 	"github.com/dgraph-io/badger/v4/verifhook"
 
@@ -176,8 +177,43 @@ func labels(res *sched.Result) []string {
 // Explore enumerates all executions of all scenarios within their bounds.
 // The caller must have called r.Fork before (executions of one process run one
 // at a time: the scheduler and the database hooks are process-global).
-func Explore(r *ev.Run, engine string, scs []Scenario) {
+func Explore(r *ev.Run, engine string, scs []Scenario) { explore(r, engine, scs, false, time.Time{}) }
+
+// ExploreExtra explores the scenarios once more with their bounds raised by
+// one, until the given instant.  This goes beyond the claimed bound: being cut
+// by the time limit does not make the check non-exhaustive; the evidence
+// records how far it got (conc_extra_*).  Violations count as usual.
+func ExploreExtra(r *ev.Run, engine string, scs []Scenario, until time.Time) {
+	up := make([]Scenario, len(scs))
+	copy(up, scs)
+	for i := range up {
+		up[i].Bound++
+	}
+	explore(r, engine, up, true, until)
+}
+
+func explore(r *ev.Run, engine string, scs []Scenario, extra bool, until time.Time) {
 	InstallDBHooks()
+	pfx := ""
+	if extra {
+		pfx = "conc_extra_"
+	}
+	expired := func() bool {
+		if extra {
+			return time.Now().After(until) || r.Expired()
+		}
+		return r.Expired()
+	}
+	capHit := func() {
+		if extra {
+			r.Set("conc_extra_complete", false)
+			return
+		}
+		r.Cap("deadline")
+	}
+	if extra {
+		r.Set("conc_extra_complete", true)
+	}
 	type item struct {
 		sc   int
 		root []int
@@ -212,19 +248,21 @@ func Explore(r *ev.Run, engine string, scs []Scenario) {
 	// Largest subtrees first (a deviation at an early step leaves the most steps to deviate
 	// at again); the shards take items round-robin, which then balances them.
 	sort.SliceStable(items, func(a, b int) bool { return len(items[a].root) < len(items[b].root) })
-	r.Set("conc_scenarios", len(scs))
-	r.Set("conc_work_items", len(items))
+	if !extra {
+		r.Set("conc_scenarios", len(scs))
+		r.Set("conc_work_items", len(items))
+	}
 	ev.ParallelRange(len(items), r.Seed, func(k int) {
 		it := items[k]
 		sc := &scs[it.sc]
-		if r.Expired() {
-			r.Cap("deadline")
+		if expired() {
+			capHit()
 			return
 		}
 		visit := func(res *sched.Result, what, out string) bool {
 			r.Add("states", int64(len(res.Steps)))
 			r.Add("transitions", int64(len(res.Steps)))
-			r.Add("executions", 1)
+			r.Add(pfx+"executions", 1)
 			if n := int64(len(res.Steps)); n > r.Get("max_steps") {
 				r.Set("max_steps", n)
 			}
@@ -247,7 +285,11 @@ func Explore(r *ev.Run, engine string, scs []Scenario) {
 				// one counterexample per work item is enough
 				return false
 			}
-			return !r.Expired()
+			if expired() {
+				capHit()
+				return false
+			}
+			return true
 		}
 		if it.leaf {
 			res, what, out, err := one(sc, nil)
